@@ -17,8 +17,14 @@ fn opts(target: Option<&str>) -> Result<prqlc::Options, String> {
         .no_signature()
         .with_display(prqlc::DisplayOptions::Plain);
     if let Some(t) = target {
-        let t = prqlc::Target::from_str(t).map_err(|e| format!("{e:?}"))?;
-        o = o.with_target(t);
+        if let Some(variant) = t.strip_prefix("variant:") {
+            // dialect given by its enum variant name through serde (bypasses Target::from_str / strum)
+            let d: prqlc::sql::Dialect = serde_json::from_value(Value::String(variant.to_string())).map_err(|e| e.to_string())?;
+            o = o.with_target(prqlc::Target::Sql(Some(d)));
+        } else {
+            let t = prqlc::Target::from_str(t).map_err(|e| format!("{e:?}"))?;
+            o = o.with_target(t);
+        }
     }
     Ok(o)
 }
